@@ -108,9 +108,13 @@ theorem fifo_dataCore (q : Quirks) (now : Nat) (c cid : Conn) (s : State) (cmd :
     simp only [dataCore]
     split
     · exact .of_eq (lineOf_emit ..)
-    · apply FifoStep.of_eq
-      rw [lineOf_notifyN, lineOf_emit]
-      exact lineOf_congr rfl rfl k
+    · split
+      · apply FifoStep.of_eq
+        rw [lineOf_emit]
+        exact lineOf_congr rfl rfl k
+      · apply FifoStep.of_eq
+        rw [lineOf_notifyN, lineOf_emit]
+        exact lineOf_congr rfl rfl k
   | pop op k' =>
     simp only [dataCore]
     split
@@ -131,8 +135,28 @@ theorem fifo_dataCore (q : Quirks) (now : Nat) (c cid : Conn) (s : State) (cmd :
   | exec => exact .refl _
 
 theorem fifo_dataCmd (q : Quirks) (now : Nat) (c cid : Conn) (s : State) (cmd : Cmd) (k : Key) :
-    FifoStep (lineOf s k) (lineOf (dataCmd q now c cid s cmd) k) :=
-  (fifo_dataCore q now c cid s cmd k).trans (fifo_drain q _ k)
+    FifoStep (lineOf s k) (lineOf (dataCmd q now c cid s cmd) k) := by
+  unfold dataCmd
+  split
+  · exact fifo_dataCore q now c cid s cmd k
+  · exact (fifo_dataCore q now c cid s cmd k).trans (fifo_drain q _ k)
+
+theorem fifo_serveKey (q : Quirks) (k' k : Key) : ∀ n s, FifoStep (lineOf s k) (lineOf (serveKey q k' n s) k) := by
+  intro n
+  induction n with
+  | zero => intro s; exact .refl _
+  | succ n ih =>
+    intro s
+    simp only [serveKey]
+    split
+    · exact ((FifoStep.of_eq (lineOf_notify k' k s)).trans (fifo_wakeOne q _ k)).trans (ih _)
+    · exact .refl _
+
+theorem fifo_serveKeys (q : Quirks) (k : Key) (ks : List Key) : ∀ s, FifoStep (lineOf s k) (lineOf (serveKeys q ks s) k) := by
+  unfold serveKeys
+  induction ks with
+  | nil => intro s; exact .refl _
+  | cons k' r ih => intro s; exact (fifo_serveKey q k' k _ s).trans (ih _)
 
 theorem fifo_foldl_dataCmd (q : Quirks) (now : Nat) (c cid : Conn) (k : Key) (cmds : List Cmd) :
     ∀ s, FifoStep (lineOf s k) (lineOf (cmds.foldl (dataCmd q now c cid) s) k) := by
@@ -154,7 +178,11 @@ theorem fifo_topCmd (q : Quirks) (now : Nat) (c : Conn) (s : State) (cmd : Cmd) 
     · exact hq _ _
   | exec =>
     simp only [topCmd]; split
-    · exact (hq _ _).trans (fifo_foldl_dataCmd q now c 0 k _ _)
+    · have h2 := (hq (fun cs => { cs with inTx := false, queue := [] }) (.arrHdr (s.conns c).queue.length)).trans
+        (fifo_foldl_dataCmd q now c 0 k (s.conns c).queue _)
+      split
+      · exact h2.trans (fifo_serveKeys q k _ _)
+      · exact h2
     · exact .of_eq (lineOf_emit ..)
   | push op k' vs =>
     simp only [topCmd]; split
